@@ -4,6 +4,9 @@
 //  Distributed under the Boost Software License, Version 1.0. (See accompanying
 //  file LICENSE_1_0.txt or copy at http://www.boost.org/LICENSE_1_0.txt)
 
+#if defined(PIKA_VERIF)
+# include <pika/config.hpp>
+#endif
 #include <pika/threading_base/detail/global_activity_count.hpp>
 
 #include <atomic>
@@ -14,12 +17,24 @@ namespace pika::threads::detail {
 
     void increment_global_activity_count()
     {
+#if defined(PIKA_VERIF)
+        PIKA_VERIF_POINT(501, &global_activity_count);    // about to count a new task / operation
+#endif
         global_activity_count.fetch_add(1, std::memory_order_acquire);
+#if defined(PIKA_VERIF)
+        PIKA_VERIF_POINT(505, &global_activity_count);    // counted
+#endif
     }
 
     void decrement_global_activity_count()
     {
+#if defined(PIKA_VERIF)
+        PIKA_VERIF_POINT(502, &global_activity_count);    // about to un-count
+#endif
         global_activity_count.fetch_sub(1, std::memory_order_release);
+#if defined(PIKA_VERIF)
+        PIKA_VERIF_POINT(504, &global_activity_count);    // un-counted
+#endif
     }
 
     std::size_t get_global_activity_count()
